@@ -41,6 +41,7 @@ class Contract:
     trusted: bool = False                          # contract assumed, body not verified (listed as assumption)
     note: str = ''
     lemmas: dict = field(default_factory=dict)     # extra hypotheses (name -> expr text) proved elsewhere / axioms
+    slices: int = 1                                # discharge the obligations of this function in that many parallel tasks
     e1: bool = True                                # False: run-time contract only (tier B function, bounded stand-in)
     runtime: bool = True                           # checked by the E2 wrappers
     gen: str | None = None                         # name of the E2 input generator
